@@ -544,7 +544,12 @@ class Engine:
 
     def ev_Name(self, node, st):
         if node.id in st.env:
-            return st.env[node.id]
+            v = st.env[node.id]
+            if isinstance(v, Opaque) and v.kind == 'maybe_bound':
+                # bound on one branch of an earlier `if` only: reading it is safe where that branch was taken (else UnboundLocalError)
+                self.oblige(st, 'bound/%s' % node.id, v.cond, kind='safety')
+                return v.val
+            return v
         if node.id in st.ghost:
             return st.ghost[node.id]
         if node.id in self.module_consts:
@@ -583,12 +588,42 @@ class Engine:
         raise OutOfSubset('unary op')
 
     def ev_BoolOp(self, node, st):
-        vals = [self.ev(v, st) for v in node.values]
-        # Python `a or b` returns an operand; we only support its use in boolean context
-        ts = [truth(v) if (is_z3(v) or isinstance(v, (bool, int, float)) or v is None) else v for v in vals]
-        if any(isinstance(t, (Ref, Row, Mat)) for t in ts):
-            raise OutOfSubset('boolean operator on arrays')
-        return z3.And(*ts) if isinstance(node.op, ast.And) else z3.Or(*ts)
+        # Python `a or b` returns an operand; only its use in boolean context is supported.  Short-circuit evaluation: operand k is
+        # evaluated under the assumption that the earlier operands did not decide the result (its safety obligations -- index bounds,
+        # "this local is bound" -- get that assumption as a premise); a concretely decided prefix stops the evaluation.
+        is_and = isinstance(node.op, ast.And)
+        ts = []
+        for v in node.values:
+            if ts:
+                guard = z3.And(*ts) if is_and else z3.Not(z3.Or(*ts))
+                gs = z3.simplify(guard)
+                if z3.is_false(gs):
+                    break
+                sub = st if z3.is_true(gs) else None
+            else:
+                guard, sub = None, st
+            try:
+                if sub is None:
+                    npc = len(st.pc)
+                    st.pc.append(guard)
+                    try:
+                        val = self.ev(v, st)
+                    finally:
+                        del st.pc[npc:]
+                else:
+                    val = self.ev(v, sub)
+            except UnboundName as e:
+                if guard is None:
+                    raise
+                # the operand reads a local that is unbound on this path: Python evaluates it only if the earlier operands did not
+                # decide the result, so "they did decide it" is a safety obligation here and the operand contributes nothing
+                self.oblige(st, 'bound/short-circuit:%s' % ast.unparse(v)[:30], z3.Not(guard), kind='safety')
+                break
+            t = truth(val) if (is_z3(val) or isinstance(val, (bool, int, float)) or val is None) else val
+            if isinstance(t, (Ref, Row, Mat)):
+                raise OutOfSubset('boolean operator on arrays')
+            ts.append(t)
+        return z3.And(*ts) if is_and else z3.Or(*ts)
 
     def ev_Compare(self, node, st):
         left = self.ev(node.left, st)
@@ -1277,7 +1312,14 @@ class Engine:
                 for k in keys:
                     if k in ta and k in tb:
                         res[k] = mval(ta[k], tb[k])
-                    # names bound on one side only are dropped (a later read raises 'unknown name': then no merge was possible anyway)
+                    elif table == 'env':
+                        # a local bound on one side only stays readable, guarded by the branch condition (reading it elsewhere is an
+                        # UnboundLocalError in Python: the read emits that condition as a safety obligation)
+                        v1 = ta[k] if k in ta else tb[k]
+                        if isinstance(v1, Opaque) and v1.kind == 'maybe_bound':
+                            raise _NoMerge()
+                        res[k] = Opaque('maybe_bound', cond=(c if k in ta else z3.Not(c)), val=v1)
+                    # ghost names bound on one side only are dropped
                 setattr(m, table, res)
             heap = {}
             for oid in set(a.heap) | set(b.heap):
@@ -1425,6 +1467,9 @@ class Engine:
         for nm in sorted(names):
             v = st.env.get(nm)
             if v is None and nm not in st.env:
+                continue
+            if isinstance(v, Opaque) and v.kind == 'maybe_bound':
+                st.env.pop(nm, None)
                 continue
             if isinstance(v, Ref):
                 # the name is re-bound in the loop body (e.g. `nPATH = np.dot(nPATH, G)`): at the head of an arbitrary iteration it
